@@ -5,7 +5,7 @@ from pyvc.se import *
 
 F = 'xmlschema/validators/simple_types.py'
 
-t = Target('simple_types.XsdUnion.raw_decode', ['C02'], F, 'XsdUnion.raw_decode',
+t = Target('simple_types.XsdUnion.raw_decode', ['C02', 'C19'], F, 'XsdUnion.raw_decode',
            note='the result is that of the least-index member whose strict decode does not raise; pattern facets pushed by a restriction of the union are applied '
                 'to the text as normalised by THAT member; no member: skip returns the raw text, lax re-decodes with the first member that failed other than by a '
                 'decode error (patterns applied with its normalisation), otherwise exactly one decode error is emitted',
